@@ -7,7 +7,7 @@ COQ_PROP = "Properties/C05.v"; COQ_DIRS = ["Common", "Timer"]
 COQ_MODULE = "Timer.Model"; RUN_FN = "run"
 THEOREMS = ["C05_Inv_wake_preserved", "C05_Inv_wake_every_history", "C05_snapshot_invariant", "C05_never_early", "C05_woken_exactly_at_deadline",
             "C05_never_late_never_lost", "C05_complete_run_wakes_at_deadline", "C05_futures_keep_invariant",
-            "C05_composite_event_is_driver_event", "C05_woken_through_last_poller", "C05_woken_through_last_waker_of_same_task",
+            "C05_composite_event_is_driver_event", "C05_woken_through_last_poller", "C05_woken_through_last_poller_of_any_sequence", "C05_woken_through_last_waker_of_same_task",
             "C05_composite_sleep_exact", "C05_composite_sleep_prefix", "C05_fragment_scripts_decode_ok",
             "C05_removal_by_id_needs_distinct_ids", "C05_composite_reset_drop_exact", "C05_composite_timeout_sleep_exact", "C05_composite_interval_exact", "C05_composite_keepalive_select_exact", "C05_composite_select_exact", "C05_composite_timeout_recv_exact", "C05_run_over_cqueue_eq_run_over_spec", "C05_composite_exact_cq",
             "C05_composite_sleep_exact_cq", "C05_woken_exactly_at_deadline_cq",
@@ -22,6 +22,8 @@ RULE = ("scripts = 1..6 tasks on 1..2 async modules, each task a list of sleep /
         "disarmed as far-future sleeps (Duration::MAX, at t = 0 and later), armed by reset to deadlines shared across tasks, re-armed or "
         "dropped before them / a boxed registered sleep polled by ONE task under two different wakers (first the task's own, then "
         "through a sub-executor that polls with its own waker and only when that waker was woken, and the other way round) / "
+        "hand-over chains: a registered boxed sleep received, polled once (directly or through a sub-executor waker) and passed on, "
+        "more than once and back to a task that polled it earlier (A->B->A, A->B->C->A, A->B->A->B, A->A'->B->A) / "
         "log steps, tasks spawned at start-up or by a message at a scripted "
         "instant; durations drawn from a small tie-rich set (0,1,5,10,15,20 ns, ms-scale around the 5 ms missed-tick threshold, "
         "far future), structured so that cancelled/dropped/reset timers precede live ones, deadlines coincide across tasks, "
@@ -34,8 +36,9 @@ TRUSTED = ["tasks are scripts over the timer API (no channels between tasks: tas
 ASSUMPTIONS = [
     "waker identities: the composite model keeps ONE identity per task in its waker table (every waker a task polls with wakes "
     "that task); the rule that the stored waker is the one of the LAST poll is stated and proved for arbitrary waker identities "
-    "(C05_woken_through_last_poller / C05_woken_through_last_waker_of_same_task), the variant keyed on the task id is refuted in "
-    "coq/Refuted/C05.v, and the implementation is exercised with two wakers of one task by script step 14",
+    "(C05_woken_through_last_poller / C05_woken_through_last_poller_of_any_sequence / C05_woken_through_last_waker_of_same_task), the "
+    "variants keyed on the task id and on a waker cached at registration are refuted in coq/Refuted/C05.v, and the implementation "
+    "is exercised with two wakers of one task by script step 14 and with hand-over chains that return to an earlier poller by step 15",
     "executor order (only C05_composite_timeout_recv_exact depends on it, and only at a tie, which its hypothesis recv_ok "
     "excludes): tasks made runnable within one event are polled in wake order -- due timer entries in slot registration "
     "order, then newly spawned tasks, then receivers woken by sends; tokio's current_thread runtime + LocalSet does this "
@@ -67,8 +70,9 @@ CLAIM = dict(
          "exactly the asking Sleep's entry provided the ids of a slot are distinct, and every Sleep a task step creates draws a fresh id "
          "(C05_removal_by_id_needs_distinct_ids; the shared-id variant is refuted); a registered Sleep polled again under any waker (by another task it has moved to, or by the same task through a "
          "sub-executor that polls with its own waker) is registered once and woken through the WAKER that polled it last "
-         "(C05_woken_through_last_poller, C05_woken_through_last_waker_of_same_task; a rule keyed on the task id is refuted: "
-         "C05_reregister_by_task_id_refuted). The pinned next() (front slot only) is refuted in Coq by the history register a@5, drop a, "
+         "(C05_woken_through_last_poller, C05_woken_through_last_poller_of_any_sequence -- any non-empty poll sequence, also one that "
+         "returns to an earlier poller --, C05_woken_through_last_waker_of_same_task; a rule keyed on the task id and a rule comparing "
+         "with a waker cached at registration are refuted: C05_reregister_by_task_id_refuted, C05_waker_cache_never_refreshed_refuted). The pinned next() (front slot only) is refuted in Coq by the history register a@5, drop a, "
          "register b@10, deactivate, the pinned never-refreshed waker by a hand-over script in which the receiving task never resumes. In the composite model (coq/Timer/Model.v: scripted tasks, FIFO executor, drivers, event set, waker table) every "
          "module event is proved to be one such driver event with a contract-respecting operation list, and for the fragment "
          "{sleep, sleep_until, log, Sleep::reset / drop of a registered sleep, timeout(d, sleep x), interval new / tick / drop with all three missed-tick behaviours, the biased keep-alive select! of step 13 (C05_composite_keepalive_select_exact), select! over two sleeps (C05_composite_select_exact), timeout(d, receive) with token messages from sender tasks (C05_composite_timeout_recv_exact; hypotheses: a task sends or receives, one receiver per module, no message arriving at the very instant a receive elapses -- there the executor's poll order decides)} (finite durations) "
@@ -171,6 +175,8 @@ def parse_steps(b):
             out.append(("keep", b[i + 1] % 2 == 1, b[i + 2], b[i + 3], b[i + 4], b[i + 5])); i += 6
         elif t == 14 and left >= 2:
             out.append(("wrap", b[i + 1] % 2 == 1, b[i + 2])); i += 3
+        elif t == 15 and left >= 3:
+            out.append(("relay", b[i + 1] % 2 == 1, b[i + 2], b[i + 3])); i += 4
         else:
             break
     return out
@@ -191,6 +197,7 @@ def enc_step(s):
     if k == "selrecv": return [12, 1 if s[1] else 0, s[2], s[3]]
     if k == "keep": return [13, 1 if s[1] else 0, s[2], s[3], s[4], s[5]]
     if k == "wrap": return [14, 1 if s[1] else 0, s[2]]
+    if k == "relay": return [15, 1 if s[1] else 0, s[2], s[3]]
     return [8]
 
 
@@ -239,6 +246,7 @@ def pretty_step(s):
     if k == "hand": return "ch%d.send(polled boxed sleep(%s))" % (s[1], fmt(s[2]))
     if k == "wrap": return ("sub_executor(sleep(%s)).polled_once.await" if s[1] else "sub_executor(polled sleep(%s)).await") % fmt(s[2])
     if k == "recv": return "ch%d.recv().await.await" % s[1]
+    if k == "relay": return "ch%d.send(ch%d.recv().await polled once%s)" % (s[3], s[2], " by a sub_executor" if s[1] else "")
     if k == "trecv": return "timeout(%s, ch%d.recv())" % (fmt(s[1]), s[2])
     if k == "selrecv": return ("select_biased(ch%d.recv(), sleep(%s))" if s[1] else "select_biased(sleep(%s), ch%d.recv())") % (
         (s[2], fmt(s[3])) if s[1] else (fmt(s[3]), s[2]))
@@ -366,6 +374,19 @@ def walk_task(t, sends, chans):
             ts, dl = sends[key]
             now = max(now, ts); recs.append([(now,)])
             now = max(now, dl); recs.append([(now,)])
+        elif k == "relay":
+            # hand-over chain: the received Sleep is polled once and passed on; its deadline stays
+            key = (t["mod"], s[2])
+            ns, nr = (chans or {}).get(key, (2, 2))
+            if ns == 0:
+                status = "blocked"; break
+            if ns != 1 or nr != 1:
+                status = "free"; break
+            if key not in sends:
+                status = "blocked"; break
+            ts, dl = sends[key]
+            now = max(now, ts); recs.append([(now,)])
+            sent[(t["mod"], s[3])] = (now, dl)
         elif k == "sleep":
             timers.append((now, now + s[1], s[1] > 0, now + s[1])); now += s[1]; recs.append([(now,)])
         elif k == "wrap":
@@ -431,13 +452,16 @@ def expect_all(tasks):
     chans = {}
     for t in tasks:
         for s in t["steps"]:
-            if s[0] in ("hand", "recv", "trecv", "selrecv"):
+            if s[0] in ("hand", "recv", "trecv", "selrecv", "relay"):
                 ch = s[1] if s[0] in ("hand", "recv") else s[2]
                 a, b = chans.get((t["mod"], ch), (0, 0))
                 chans[(t["mod"], ch)] = (a + 1, b) if s[0] == "hand" else (a, b + 1)
+            if s[0] == "relay":
+                a, b = chans.get((t["mod"], s[3]), (0, 0))
+                chans[(t["mod"], s[3])] = (a + 1, b)
     sends = {}
     res = []
-    for _ in range(len(tasks) + 2):
+    for _ in range(len(tasks) + 2 + sum(1 for t in tasks for s in t["steps"] if s[0] == "relay")):
         res = [walk_task(t, sends, chans) for t in tasks]
         new = {}
         for r in res:
@@ -605,6 +629,24 @@ def mechanisms(script, out):
                 tr = max(arrive, ts)
                 m.add("handed_over_sleep_awaited_before_deadline" if tr < dl else "handed_over_sleep_already_due")
                 if arrive < ts: m.add("receiver_waits_for_send")
+                # the chain of tasks that polled this Sleep while it was registered, oldest first
+                chain, ch, wrapped, early = [k], s[1], False, tr < dl
+                for _ in range(len(tasks) * 8):
+                    src = [(k2, q) for k2, t2 in enumerate(tasks) if t2["mod"] == t["mod"] for q in t2["steps"]
+                           if (q[0] == "hand" and q[1] == ch) or (q[0] == "relay" and q[3] == ch)]
+                    if len(src) != 1: break
+                    chain.insert(0, src[0][0])
+                    if src[0][1][0] == "hand": break
+                    wrapped = wrapped or src[0][1][1]
+                    early = early and sends[(t["mod"], ch)][0] < dl
+                    ch = src[0][1][2]
+                if len(chain) >= 3 and early:
+                    m.add("registered_sleep_handed_over_more_than_once")
+                    if wrapped: m.add("chain_link_polls_through_sub_executor_waker")
+                    if any(chain[i] == chain[j] and any(x != chain[i] for x in chain[i + 1:j])
+                           for i in range(len(chain)) for j in range(i + 2, len(chain))):
+                        m.add("registered_sleep_returns_to_an_earlier_poller")
+                        m.add("chain_" + "".join("ABCDEFGH"[sorted(set(chain), key=chain.index).index(x)] for x in chain))
     for k, t in enumerate(tasks):
         timers = exp[k][1]
         for tm in timers:
@@ -775,6 +817,30 @@ def gen_script(rng):
             i = rng.randrange(nt)
             tasks[i]["steps"].append(("recv", ch))
         ch += 1
+    # hand-over chains: a registered Sleep is passed on more than once, also back to a task that polled it earlier
+    # (A->B->A, A->B->C->A, A->B->A->B, ...); a link may poll it through the waker of a sub-executor
+    if rng.random() < 0.16:
+        m = rng.randrange(mods)
+        ids = [i for i in range(len(tasks)) if tasks[i]["mod"] == m]
+        while len(ids) < 3 and len(tasks) < 6 and (len(ids) < 2 or rng.random() < 0.5):
+            tasks.append({"mod": m, "start": 0 if rng.random() < 0.7 else rng.choice([1, 3, 5]),
+                          "steps": [gen_step(rng, 0) for _ in range(rng.choice([0, 0, 1, 2]))]})
+            ids.append(len(tasks) - 1)
+        if len(ids) >= 2:
+            rng.shuffle(ids)
+            pat = rng.choice(["ABA", "ABA", "ABA", "ABCA", "ABAB", "ABAB", "ABCB", "AABA", "ABBA", "ABCAB"])
+            if len(ids) < 3 and "C" in pat: pat = rng.choice(["ABA", "ABAB", "AABA"])
+            who = [ids["ABC".index(c)] for c in pat]
+            d = rng.choice([10, 15, 20, 25, 25, 40, 10 * MS])
+            pos = {}
+            for n, i in enumerate(who):
+                st = tasks[i]["steps"]
+                at = rng.randint(pos.get(i, 0), len(st)) if rng.random() < 0.5 else pos.get(i, 0)
+                if n == 0: step = ("hand", 10, d)
+                elif n == len(who) - 1: step = ("recv", 10 + n - 1)
+                else: step = ("relay", rng.random() < 0.2, 10 + n - 1, 10 + n)
+                st.insert(at, step)
+                pos[i] = at + 1
     # same task, other waker: a registered Sleep is polled first with the task's waker and then through a sub-executor
     # that polls with its own waker (and only when that waker was woken), or the other way round; other timers of the
     # module before / at / after its deadline
@@ -866,6 +932,8 @@ def exhaustive():
     <= 3 steps spawned at start-up, the second of 1..2 steps spawned by a message at t=5, over the 13-symbol alphabet EX_ALPHABET;
     (3) every hand-over script [<=1 step] send(sleep 5/10/15) [<=1 step] | [<=1 step] receive+await [<=1 step] over EX_SMALL;
     (6) same task, other waker: [<=1 step] sub-executor step (either order, sleep 5/10) [<=1 step], alone and next to a one-step task;
+    (7) hand-over chains A->B->A, A->B->A->B, A->B->C->A, A->A->B->A, A->B->C->B of a sleep 10/20, [<=1 step] before B's first
+    link and after the final await, the first link polling directly or through a sub-executor;
     (5) keep-alive timers: two tasks, each [sleep 0|3] keepalive(d0 = MAX|50, armed to now+10|7, select against sleep(4|50), then
     re-arm(now+5|20) | drop) [sleep 5]: every pair;
     (4) every message-driven cancellation script [<=1 step] timeout(10, recv)|select{recv,sleep(10)} [<=1 step] with the sender
@@ -912,6 +980,23 @@ def exhaustive():
                     for pb in opt[1:]:
                         yield encode(1, [{"mod": 0, "start": 0, "steps": list(pa) + [("wrap", wf, d)] + list(sa)},
                                          {"mod": 0, "start": 0, "steps": list(pb)}])
+    # (7) hand-over chains A->B->A, A->B->A->B, A->B->C->A, A->A'->B->A (A' = A through a sub-executor waker): sleep 10|20,
+    # [<=1 step] before B's first link, [<=1 step] after the final await, every link plain or through a sub-executor (first only)
+    for pat in ("ABA", "ABAB", "ABCA", "AABA", "ABCB"):
+        for d in (10, 20):
+            for pb in opt:
+                for sz in opt:
+                    for wr in (False, True):
+                        who = ["ABC".index(c) for c in pat]
+                        tasks = [{"mod": 0, "start": 0, "steps": []} for _ in range(max(who) + 1)]
+                        tasks[1]["steps"] += list(pb)
+                        for n, i in enumerate(who):
+                            if n == 0: step = ("hand", 10, d)
+                            elif n == len(who) - 1: step = ("recv", 10 + n - 1)
+                            else: step = ("relay", wr and n == 1, 10 + n - 1, 10 + n)
+                            tasks[i]["steps"].append(step)
+                        tasks[who[-1]]["steps"] += list(sz)
+                        yield encode(1, tasks)
     # (4) message-driven cancellation: receiver = [<=1 step] timeout(10, recv) | select{recv, sleep(10)} [<=1 step],
     # sender spawned by a message at 2 / 5 / 12 = send(sleep 5|20) [<=1 step]; arrivals in the instant of the deadline excluded
     for pb in opt:
